@@ -138,6 +138,49 @@ def pool_value(rng: random.Random, ktype: str, label: str) -> object:
     raise NotImplementedError(ktype)
 
 
+_INTS = ("int8", "int16", "int32", "int64", "uint8", "uint16", "uint32", "uint64")
+_HASH_M = 2**61 - 1  # CPython hashes ints modulo this prime; and hash(-1) == hash(-2)
+
+
+def near_values(fs: FieldSpec, d: object) -> list:
+    """Values of fs's type that differ minimally from d (a default): +-1, the other boolean, one more/less character - and integers
+    that are *different but hash-equal* in CPython (d +- (2^61-1); -2 for -1).  A comparison with the default that is off by one,
+    goes through hash(), str(), truthiness or a lossy normalisation tells these apart from the default wrongly."""
+    kt = fs.ktype
+    out: list = []
+    if kt in _INTS or kt in ("timedelta_i32", "timedelta_i64", "datetime_i64"):
+        if not isinstance(d, int) or isinstance(d, bool):
+            return []
+        lo, hi = int_range(kt) if kt in _INTS else {"timedelta_i32": (-(2**31), 2**31 - 1), "timedelta_i64": (TD64_MIN, TD64_MAX), "datetime_i64": (0, DT_MAX)}[kt]
+        cand = [d - 1, d + 1, d + _HASH_M, d - _HASH_M] + ([-2] if d == -1 else []) + ([-1] if d == -2 else [])
+        out = [v for v in cand if lo <= v <= hi and v != d]
+    elif kt == "float64":
+        out = [d + 1.5, -d] if isinstance(d, float) and d == d and abs(d) < 1e300 and d != 0 else [1.5] if d == 0 else []
+    elif kt == "bool":
+        out = [not d] if isinstance(d, bool) else []
+    elif kt == "error_code":
+        codes = set(error_codes())
+        out = [v for v in (d - 1, d + 1) if isinstance(d, int) and v in codes]
+    elif kt == "string":
+        if isinstance(d, str):
+            out = [d + "x"] + ([d[:-1]] if d else []) + ([d.swapcase()] if d.swapcase() != d else [])
+    elif kt in ("bytes", "records"):
+        if isinstance(d, bytes):
+            out = [d + b"x"] + ([d[:-1]] if d else [])
+    return out
+
+
+def near_default_cells(fs: FieldSpec) -> list[str]:
+    if fs.tag is None or fs.array:
+        return []
+    d = fs.effective_default()
+    if fs.kind == "struct":
+        if not isinstance(d, dict) or fs.struct is None:
+            return []
+        return [f"nds:{m.name}:{k}" for m in fs.struct.fields if m.kind == "prim" and not m.array and m.name in d for k in range(len(near_values(m, d[m.name])))]
+    return [f"nd:{k}" for k in range(len(near_values(fs, d)))]
+
+
 class Gen:
     def __init__(self, rng: random.Random, domain: str = "canonical", unknown_tags: bool = False,
                  max_items: int = 4, big_prob: float = 0.01, long_arrays: bool = True) -> None:
@@ -164,6 +207,7 @@ class Gen:
                 out.append("null")
         if fs.tag is not None:
             out.append("default")
+            out += near_default_cells(fs)
         return out
 
     def _small_label(self, ktype: str) -> str:
@@ -198,6 +242,13 @@ class Gen:
             return _copy_tree(fs.effective_default())
         if cell == "null":
             return None
+        if cell.startswith("nd:"):
+            return near_values(fs, fs.effective_default())[int(cell[3:])]
+        if cell.startswith("nds:"):
+            _, member, k = cell.split(":")
+            tree = _copy_tree(fs.effective_default())
+            tree[member] = near_values(fs.struct.field(member), tree[member])[int(k)]
+            return tree
         if fs.array:
             if cell in ("empty", "one", "many"):
                 n = {"empty": 0, "one": 1, "many": self._count(depth)}[cell]
@@ -227,6 +278,9 @@ class Gen:
                 return "null"
             if "default" in cells and r > 0.75:
                 return "default"
+            near = [c for c in cells if c.startswith("nd:")]
+            if near and r > 0.62:
+                return self.rng.choice(near)
             return "p:" + self._small_label(fs.ktype)
         return self.rng.choice(cells)
 
